@@ -576,10 +576,11 @@ fn depth_probe(ctx: &PCtx, rec: &RefCell<Recorder>) {
             let fail = match r {
                 Err(p) => Some(Fail::new("depth-panic", format!("nesting {} panicked: {}", depth, p))),
                 Ok(ok) => {
-                    // the outermost message is level 0: `depth` nested messages below it
-                    if depth <= 98 && !ok {
+                    // the outermost message is level 0: `depth` nested messages below it; a value
+                    // nested exactly to the documented limit is a value (C05), one level more is not
+                    if depth <= 100 && !ok {
                         Some(Fail::new("depth-refused-early", format!("nesting depth {} (documented limit 100) is rejected", depth)))
-                    } else if depth >= 102 && ok {
+                    } else if depth >= 101 && ok {
                         Some(Fail::new("depth-not-refused", format!("nesting depth {} is accepted although the documented recursion limit is 100", depth)))
                     } else {
                         None
@@ -589,6 +590,45 @@ fn depth_probe(ctx: &PCtx, rec: &RefCell<Recorder>) {
             if let Some(f) = fail {
                 ctx.report(rec, "proto-depth", &json!({"doc": d.key, "depth": depth}), &f);
                 return;
+            }
+            // map levels (field 4, map<string, Tree>): an entry is a nested message of its own,
+            // so one map level is two wire levels; `maps` map levels innermost below
+            // `depth - 2 * maps` plain levels, every parity around the limit
+            for maps in 1..=3usize {
+                if depth < 2 * maps || !(depth <= 12 || (88..=112).contains(&depth)) {
+                    continue;
+                }
+                let mut bytes = vec![0x08, 0x01];
+                for _ in 0..maps {
+                    let mut entry = vec![0x0a, 0x01, b'k', 0x12];
+                    put_varint(&mut entry, bytes.len() as u64);
+                    entry.extend_from_slice(&bytes);
+                    let mut o = vec![0x22];
+                    put_varint(&mut o, entry.len() as u64);
+                    o.extend_from_slice(&entry);
+                    bytes = o;
+                }
+                for _ in 0..depth - 2 * maps {
+                    let mut o = vec![0x1a];
+                    put_varint(&mut o, bytes.len() as u64);
+                    o.extend_from_slice(&bytes);
+                    bytes = o;
+                }
+                {
+                    let mut rr = rec.borrow_mut();
+                    rr.case(fp(&("mdepth", &d.key, depth, maps)), true, || json!({"doc": d.key, "wire nesting": depth, "map levels": maps}));
+                    rr.class("nesting chain through map entries");
+                }
+                let fail = match catch(|| (e.ops.decode_only)(&bytes)) {
+                    Err(p) => Some(Fail::new("map-depth-panic", format!("{} message levels around {} map levels panicked: {}", depth - 2 * maps, maps, p))),
+                    Ok(ok) if depth <= 100 && !ok => Some(Fail::new("map-depth-refused-early", format!("{} message levels around {} map levels ({} wire levels, documented limit 100) are rejected", depth - 2 * maps, maps, depth))),
+                    Ok(ok) if depth >= 101 && ok => Some(Fail::new("map-depth-not-refused", format!("{} message levels around {} map levels ({} wire levels) are accepted although the documented recursion limit is 100", depth - 2 * maps, maps, depth))),
+                    _ => None,
+                };
+                if let Some(f) = fail {
+                    ctx.report(rec, "proto-depth", &json!({"doc": d.key, "depth": depth, "maps": maps}), &f);
+                    return;
+                }
             }
             // the same depth through *unknown groups* (field 1000, undeclared): `depth` nested
             // groups at the top level, and `depth/2` known messages around `depth - depth/2` groups
@@ -618,10 +658,11 @@ fn depth_probe(ctx: &PCtx, rec: &RefCell<Recorder>) {
                 let r = catch(|| (e.ops.decode_only)(&bytes));
                 let fail = match r {
                     Err(p) => Some(Fail::new("group-depth-panic", format!("{} messages around {} unknown groups panicked: {}", msgs, groups, p))),
-                    // skipping a group enters the recursion once more than a message does: the
-                    // accepted depth may be one lower
-                    Ok(ok) if depth <= 96 && !ok => Some(Fail::new("group-depth-refused-early", format!("{} known messages around {} nested unknown groups (documented limit 100) are rejected", msgs, groups))),
-                    Ok(ok) if depth >= 102 && ok => Some(Fail::new("group-depth-not-refused", format!("{} known messages around {} nested unknown groups are accepted although the documented recursion limit is 100", msgs, groups))),
+                    // the scalar inside the innermost group is skipped through the same
+                    // limit-checked entry point, so exactly 100 groups around a scalar may go
+                    // either way: the property does not fix what a leaf costs
+                    Ok(ok) if depth <= 99 && !ok => Some(Fail::new("group-depth-refused-early", format!("{} known messages around {} nested unknown groups (documented limit 100) are rejected", msgs, groups))),
+                    Ok(ok) if depth >= 101 && ok => Some(Fail::new("group-depth-not-refused", format!("{} known messages around {} nested unknown groups are accepted although the documented recursion limit is 100", msgs, groups))),
                     _ => None,
                 };
                 if let Some(f) = fail {
@@ -638,7 +679,7 @@ pub fn c10(ctx: &PCtx) -> i32 {
     {
         let mut r = rec.borrow_mut();
         r.level = "fault_enumeration";
-        r.rule = "every generated message type x (random bytes | reference encoding of a schema-directed value, optionally with unknown records, with one fault: truncation, bit flip, a length prefix at the first three nesting levels overwritten with 0, 1, rem-1, rem+1, i32::MAX, u32::MAX, u64::MAX, 16Mi); Message::decode and decode_length_delimited under panic capture and a counting allocator (bound 1 MiB + 4096 x input); nesting chains of 1..300 embedded messages, of unknown groups, and of messages around unknown groups: <= 96/98 accepted, >= 102 rejected; non-trivial = single-fault mutant of a valid encoding".into();
+        r.rule = "every generated message type x (random bytes | reference encoding of a schema-directed value, optionally with unknown records, with one fault: truncation, bit flip, a length prefix at the first three nesting levels overwritten with 0, 1, rem-1, rem+1, i32::MAX, u32::MAX, u64::MAX, 16Mi); Message::decode and decode_length_delimited under panic capture and a counting allocator (bound 1 MiB + 4096 x input); nesting chains of 1..300 wire levels through embedded messages, map entries (two levels each), unknown groups, and mixtures: <= 100 accepted (unknown groups: <= 99), >= 101 rejected; non-trivial = single-fault mutant of a valid encoding".into();
         r.assumptions = vec!["runtime field codecs are exercised through the generated messages (every scalar kind in every position in the kitchen-sink messages); group decoding is exercised through unknown group records only (pilota-build does not support group fields)".into()];
     }
     let total = |ctx: &PCtx, di: usize, c: &PFaultCase| total_case(ctx, di, c);
